@@ -111,7 +111,9 @@ def classify(h, spec, out, rc):
             res["obligations"][cov.replace("COVER:", "must-not-reach.")] = "FAILURE"
         else:
             res["obligations"][cov.replace("COVER:", "must-not-reach.")] = "SUCCESS"
-    if expected_fail and not res.get("expected_failures"):
+    if expected_fail and not res.get("expected_failures") and spec.get("or_hook") and res["covers"].get("COVER:panic-hook") == "SATISFIED":
+        res["obligations"]["must-panic"] = "SUCCESS"  # refused through an explicit panic (hook reached) instead of the implicit one
+    elif expected_fail and not res.get("expected_failures"):
         res["failures"].append(dict(obligation="must-panic", desc="the implicit panic %r this obligation requires was not raised" % expected_fail, loc="", kind="obligation"))
         res["obligations"]["must-panic"] = "FAILURE"
     elif expected_fail:
